@@ -422,13 +422,22 @@ def next_env(rng, env, shock=None):
     drive the health factor below 1)"""
     e = copy.deepcopy(env)
     e["minute"] = env.get("minute", 0) + 1
+    # a quiet bar: part of the row repeats the previous bar's (minute data: prices unchanged, or only the borrow side accrues, or nothing moves
+    # at all); every part that does move must still show in every view
+    still = set()
+    if shock is None and rng.random() < 0.25:
+        still = set(rng.choice((("price",), ("price", "liq"), ("price", "liq", "rates"), ("price", "var", "rates"), ("liq", "var"),
+                                ("price", "liq", "var", "rates"), ("liq",), ("var",))))
     for t in e["tokens"]:
         st = e["status"][t]
-        st["liqIdx"] = (st["liqIdx"] * (1 + dec_digits(rng, 0, 0.02, 12))).quantize(D(10) ** -27)
-        st["varIdx"] = (st["varIdx"] * (1 + dec_digits(rng, 0, 0.03, 12))).quantize(D(10) ** -27)
-        st["liqRate"] = dec_digits(rng, 0, 0.3, 27)
-        st["varRate"] = dec_digits(rng, 0, 0.5, 27)
-        f = dec_digits(rng, 0.9, 1.1, 6)
+        if "liq" not in still:
+            st["liqIdx"] = (st["liqIdx"] * (1 + dec_digits(rng, 0, 0.02, 12))).quantize(D(10) ** -27)
+        if "var" not in still:
+            st["varIdx"] = (st["varIdx"] * (1 + dec_digits(rng, 0, 0.03, 12))).quantize(D(10) ** -27)
+        if "rates" not in still:
+            st["liqRate"] = dec_digits(rng, 0, 0.3, 27)
+            st["varRate"] = dec_digits(rng, 0, 0.5, 27)
+        f = dec_digits(rng, 0.9, 1.1, 6) if "price" not in still else D(1)
         if shock and t in shock:
             f = shock[t]
         if t not in e["price"]:
